@@ -235,6 +235,12 @@ where
     while let Some(res) = poll_fn(|cx| body.as_mut().poll_next(cx)).await {
         let mut chunk = res.map_err(|err| DispatchError::ResponseBody(err.into()))?;
 
+        // An empty chunk carries nothing. Reserving zero capacity for it would wait for a
+        // capacity event that may never come, stalling the rest of the body.
+        if chunk.is_empty() {
+            continue;
+        }
+
         'send: loop {
             let chunk_size = cmp::min(chunk.len(), CHUNK_SIZE);
 
